@@ -37,8 +37,8 @@ def write(directory, seed):
         mech = rng.choice(['leaf_50', 'leaf_50', 'toyota_corolla'])
         soc = rng.choice([0.08, 0.15, 0.3, 0.6, 0.9])
         sched, home = ('', '')
-        if rng.random() < 0.3:
-            sched, home = rng.choice(['first', 'second', 'third']), rng.choice(bases)[0]
+        if rng.random() < 0.45:
+            sched, home = rng.choice(['sa', 'sb', 'sc', 'sd']), rng.choice(bases)[0]
         vehicles.append((f'v{k}', la, lo, mech, soc, sched, home))
     horizon = 400 * delta
     reqs, t, k = [], 0, 0
@@ -47,6 +47,16 @@ def write(directory, seed):
             (ola, olo), (dla, dlo) = cell(rng.randint(0, 4), rng.randint(0, 4)), cell(rng.randint(0, 4), rng.randint(0, 4))
             reqs.append((k, ola, olo, dla, dlo, t, rng.randint(1, 2), rng.choice(fleets) if fleets else None)); k += 1
         t += rng.choice([0, delta // 2, delta, 2 * delta, 5 * delta])
+    # shifts that begin / end on step boundaries early in the run, one wrapping past midnight, one empty
+    def hms(t):
+        t %= 86400
+        return f'{t // 3600:02d}:{(t % 3600) // 60:02d}:{t % 60:02d}'
+    with open(os.path.join(directory, 'schedules.csv'), 'w') as f:
+        f.write('schedule_id,start_time,end_time\n')
+        f.write(f'sa,"{hms(0)}","{hms(rng.randint(8, 30) * delta)}"\n')
+        f.write(f'sb,"{hms(rng.randint(5, 15) * delta)}","{hms(rng.randint(20, 50) * delta)}"\n')
+        f.write(f'sc,"{hms(86400 - 3600)}","{hms(rng.randint(10, 40) * delta)}"\n')
+        f.write(f'sd,"{hms(7 * delta)}","{hms(7 * delta)}"\n')
     with open(os.path.join(directory, 'vehicles.csv'), 'w') as f:
         f.write('vehicle_id,lat,lon,mechatronics_id,initial_soc,schedule_id,home_base_id\n')
         for v in vehicles:
@@ -76,7 +86,7 @@ def write(directory, seed):
                    'start_time': 0, 'end_time': horizon},
            'network': {'network_type': 'euclidean'},
            'input': {'vehicles_file': 'vehicles.csv', 'requests_file': 'requests.csv', 'bases_file': 'bases.csv', 'stations_file': 'stations.csv',
-                     'charging_price_file': 'prices.csv'},
+                     'charging_price_file': 'prices.csv', 'schedules_file': 'schedules.csv'},
            'dispatcher': {'valid_dispatch_states': ['Idle', 'Repositioning'], 'max_search_radius_km': 5.0}}
     if fleets:
         fl = {f: {'vehicles': [], 'stations': [], 'bases': []} for f in fleets}
